@@ -121,18 +121,27 @@ def gen(seed, tier):
             else:
                 out.append(op + " " + hx(b))
         i += 1
-    # a dedicated stream of well-formed requests with duplicate headers / odd whitespace
-    r = random.Random(seed * 77 + 1)
-    for _ in range(n // 5):
-        m, t, v, hs = g.wellformed() if hasattr(g, "wellformed") and False else (None, None, None, None)
-        break
+    # a dedicated stream of well-formed requests with duplicate headers / odd whitespace: every request
+    # carries at least one header name two to four times, spelled differently (case, padding) and with
+    # different values, so "the last duplicate wins" and the trimming are decided by each of them
+    g2 = http_gen.G(seed * 77 + 1); r = g2.r
+    for _ in range(n // 10):
+        hs = [(k.replace(b"\r\n", b"\r").replace(b":", b""), v.replace(b"\r\n", b"\n")) for k, v in g2.headers(4)]
+        for _ in range(r.choice([1, 1, 2, 3])):
+            core = r.choice(hs)[0].strip(b" \t\r\n\x00") if hs and r.random() < 0.7 else r.choice(http_gen.HNAMES)
+            for _ in range(r.choice([2, 2, 3, 4])):
+                nm = r.choice([core, core.upper(), core.lower(), core.swapcase()])
+                hs.insert(r.randrange(len(hs) + 1), (r.choice(http_gen.WS).replace(b"\r\n", b"\r") + nm + r.choice(http_gen.WS).replace(b"\r\n", b"\r"),
+                                                      r.choice(http_gen.WS).replace(b"\r\n", b"\n") + r.choice(http_gen.HVALUES) + r.choice(http_gen.WS).replace(b"\r\n", b"\n")))
+        req = g2.render(r.choice([b"GET", b"POST", b"CONNECT", b"HEAD"]), g2.target().replace(b" ", b"%20"), r.choice([b"HTTP/1.1", b"HTTP/1.0", b""]), hs)
+        out.append("parse " + hx(req))
     return [out]
 
 def nontrivial(cmd, out):
     return cmd.startswith("parse ") and len(cmd) > 40
 
 CHECK = LineCheck("C15", ["SimVerif.Props.C15"], "h_http", ["h_http.cpp"], "http", gen, spec, nontrivial,
-    "commands parse/reqlen/normalize/trim/lower over random bytes, grammar-generated well-formed requests (duplicate headers, odd whitespace, '..', '?', CONNECT), field-wise mutations (missing CRLF, colon-less header, NUL, >=0x80, truncation at every offset, long header blocks) and boundary cases; non-trivial = a parse command longer than 16 bytes; distinct = distinct command",
+    "commands parse/reqlen/normalize/trim/lower over random bytes, grammar-generated well-formed requests (duplicate headers, odd whitespace, '..', '?', CONNECT, absolute-form targets `scheme://authority/path`, targets of 40-300 segments and 300-byte segments up to ~20 kB) plus a dedicated stream (a tenth of the main one) of well-formed requests whose headers repeat a name 2-4 times in different spellings, normalize inputs with ~200 'a/../' detours, field-wise mutations (missing CRLF, colon-less header, NUL, >=0x80, truncation at every offset, long header blocks) and boundary cases; non-trivial = a parse command longer than 16 bytes; distinct = distinct command",
     TRUSTED, ASSUME)
 
 def run(tier, seed, replay):
